@@ -112,7 +112,7 @@ func (a *AuthorRequest) Validate() error {
 			return err
 		}
 	}
-	return nil
+	return fitsLen(0xff, a.User.Len(), a.Port.Len(), a.RemAddr.Len(), len(a.Args))
 }
 
 // MarshalBinary encodes AuthroRequest into tacacs bytes
@@ -291,7 +291,10 @@ func (a *AuthorReply) Validate() error {
 			return err
 		}
 	}
-	return nil
+	if err := fitsLen(0xff, len(a.Args)); err != nil {
+		return err
+	}
+	return fitsLen(0xffff, a.ServerMsg.Len(), a.Data.Len())
 }
 
 // MarshalBinary encodes AuthorReply into tacacs bytes
